@@ -788,6 +788,8 @@ class ClientSession:
                             resp.status in (301, 302) and resp.method == hdrs.METH_POST
                         ):
                             method = hdrs.METH_GET
+                            if req._body is not None:
+                                await req._body.close()
                             data = None
                             # The body is dropped, so is its framing.
                             chunked = None
